@@ -41,7 +41,11 @@ def witness(path, feats):
     x = {}
     for f in feats:
         if f in eq:
-            if eq[f] in ne[f] or not (lo[f] < eq[f] <= hi[f]):
+            if eq[f] in ne[f]:
+                return None
+            if isinstance(eq[f], (int, float)) and not (lo[f] < eq[f] <= hi[f]):
+                return None
+            if not isinstance(eq[f], (int, float)) and (lo[f] > -INF or hi[f] < INF):
                 return None
             x[f] = eq[f]
             continue
@@ -63,12 +67,13 @@ def witness(path, feats):
     return x
 
 
-def leaf_names(st, f):
+def leaf_names(st, f, keys=None):
     """Names of the current tree's leaves obtained behaviourally: witness point routed with river's own traverse and
-    named with the library's public get_path_through_tree.  Returns (names, n_leaves, n_unnamed)."""
+    named with the library's public get_path_through_tree.  Returns (names, n_leaves, n_unnamed).
+    keys: all keys the instances of the stream carry (registered features and further entries the trees also see)."""
     tree, _ = st(f)
     root = tree._root
-    feats = [g for g in st.feature_names if g != f]
+    feats = [g for g in (st.feature_names if keys is None else keys) if g != f]
     names, n, bad = set(), 0, 0
     for leaf, path in leaves_with_path(root):
         n += 1
@@ -108,6 +113,27 @@ def gen_stream(rnd, n, period, style):
             n1 = rnd.gauss(0, 0.3)
             n2 = rnd.gauss(0, 0.3) + 3 * (n1 > 0)
         yield {"c1": c1, "c2": c2, "n1": n1, "n2": n2}
+
+
+def add_unregistered(x, i, schema, cfg_no, onset, ernd):
+    """Entries of the instance that are NOT registered features of the storage (update() skips such keys when it picks the trees
+    to train, the trees see them as inputs, the reservoirs keep the data point as observed): a row id, a timestamp, and - from
+    step `onset` on, as a producer that starts to report more - further entries, so that one stream (and one reservoir) mixes
+    instances with different key sets.  Keys never disappear again (a tree that split on an entry cannot route an instance without it).
+    schema 'numeric': ints / floats / bools;  schema 'strings' (storages that register the categorical features only, where river's
+    classifiers accept them): string entries, next to the numeric readings n1, n2 which are unregistered there."""
+    if schema == "numeric":
+        x["row"] = i if cfg_no % 8 != 5 else i % 7
+        x["ts"] = 0.5 * i + ernd.random() * 0.25
+        if i >= onset:
+            x["batch"] = i // 40
+            x["flag"] = ernd.random() < 0.3
+    elif schema == "strings":
+        x["src"] = ernd.choice(["sensor-a", "sensor-b", "gateway"])
+        x["row"] = i
+        if i >= onset:
+            x["note"] = ernd.choice(["ok", "late", ""])
+    return x
 
 
 CONFIGS = [
@@ -221,9 +247,9 @@ def main(run):
                 "observation is in the reservoir named by its own routing; periodically TreeImputer (2 flags x 2 modes, random "
                 "subsets, n in {1,3}): inputs differ from x only on the subset, storage mode values come from the reservoir of the "
                 "instance's leaf (fallback only without reservoir), categorical values are observed classes, n predictions, nothing "
-                "modified; three LONG-LIVED TreeImputers polled before and after the update of an instance (the same object or an equal copy), streams with repeated rows and whole numeric readings as ints in every other random configuration; evaluations = invariant / imputer evaluations; non-trivial = updates after which a tree lost a named leaf "
+                "modified; three LONG-LIVED TreeImputers polled before and after the update of an instance (the same object or an equal copy), streams with repeated rows and whole numeric readings as ints in every other random configuration; in 8 of the 16 random configurations the instances carry entries that are NOT registered features (row id, timestamp, batch no, bool flag; from a random onset step on further ones, so key sets differ within a stream; 2 configurations register the categorical features only and carry string entries next to the unregistered numeric readings): a reservoir entry must equal, on ALL its keys, the snapshot of an observed instance; evaluations = invariant / imputer evaluations; non-trivial = updates after which a tree lost a named leaf "
                 "(the stale-reservoir clause is only exercised there) and distinct imputer cases")
-    run.assumptions = ["complete dicts and numeric-coded categories", "explicit tree seed",
+    run.assumptions = ["complete dicts and numeric-coded categories", "unregistered entries never disappear again within a stream (the library cannot route an instance that lacks an entry a tree split on: KeyError) and are numeric whenever a numeric feature is registered (river's linear leaf models reject strings)", "explicit tree seed",
                        "leaves whose path constraints are contradictory cannot be named by a witness; a key is judged stale only when "
                        "every leaf of the tree could be named (otherwise counted as unjudgeable)"]
     run.require("ixai/storage/tree_storage.py:TreeStorage.update", "ixai/storage/tree_storage.py:TreeStorage.get_path_through_tree",
@@ -245,7 +271,14 @@ def main(run):
         irnd = random.Random(seed + 1)
         random.seed(seed)
         np.random.seed(seed % 2 ** 32)
-        if fixed_seed is None and j % 2 == 1:
+        cfg_no = j - len(fixed)
+        schema = None if fixed_seed is not None else "strings" if cfg_no % 8 == 3 else "numeric" if (cfg_no % 4 == 1 or cfg_no % 8 == 7) else None
+        ernd = random.Random(seed + 3)
+        onset = ernd.choice([1, 7, 40, 150, 600])
+        if schema == "strings":
+            st = TreeStorage(cat_feature_names=["c1", "c2"], num_feature_names=[], max_depth=md,
+                             leaf_reservoir_length=L, grace_period=gp, seed=seed % 1000)
+        elif fixed_seed is None and j % 2 == 1:
             # positional arguments in the documented order: (cat, num, max_depth, leaf_reservoir_length, grace_period, seed)
             st = TreeStorage(["c1", "c2"], ["n1", "n2"], md, L, gp, seed % 1000)
         else:
@@ -255,7 +288,9 @@ def main(run):
         seen_ids = {}
         observed_cat = {"c1": set(), "c2": set()}
         prev_names = {f: None for f in feats}
-        tag0 = f"max_depth={md} grace={gp} reservoir={L} period={period} {style}" + (" [witness scenario]" if fixed_seed is not None else "")
+        tag0 = (f"max_depth={md} grace={gp} reservoir={L} period={period} {style}" + (" [witness scenario]" if fixed_seed is not None else "")
+                + (f" [instances carry unregistered {schema} entries, more of them from step {onset} on]" if schema else ""))
+        all_keys = list(feats)
         stop = False
         lost_events = critical = 0
         # long-lived imputers (as an explainer holds them) polled around every update; in every other random configuration the
@@ -275,6 +310,15 @@ def main(run):
                     x["n1"] = int(round(x["n1"]))            # a whole reading of a numeric feature arrives as a Python int
                     if prnd.random() < 0.5:
                         x["n2"] = int(round(x["n2"]))
+            if schema:
+                add_unregistered(x, i, schema, cfg_no, onset, ernd)
+                run.count("updates-with-unregistered-entries")
+                if any(isinstance(v, str) for v in x.values()):
+                    run.count("updates-with-unregistered-string-entries")
+                if any(g not in all_keys for g in x):
+                    if i:
+                        run.count("streams-whose-instances-start-to-carry-further-entries")
+                    all_keys += [g for g in x if g not in all_keys]
             prev_x = x
             poll = i >= 12 and (i < 400 or prnd.random() < 0.15) and not stop
             if poll:       # explain (impute around the instance) BEFORE it enters the storage ...
@@ -293,7 +337,7 @@ def main(run):
                 run.violation("length", f"{tag}: len(storage)={len(st)} after {i + 1} updates", replay)
                 stop = True
             for f in feats:
-                names, nleaves, unnamed = leaf_names(st, f)
+                names, nleaves, unnamed = leaf_names(st, f, all_keys)
                 keys = set(st.data_reservoirs[f].keys())
                 if prev_names[f] is not None and len(prev_names[f]) > 1 and len(names) == 1:
                     run.count("tree-collapsed-to-one-leaf")
@@ -324,7 +368,11 @@ def main(run):
                         stop = True
                     for dpt in data:
                         ent = seen_ids.get(tuple(sorted(dpt.items()))) if isinstance(dpt, dict) else None      # (by value: a copy of an observed point is that point)
-                        if ent is None or dpt != ent[1] or set(dpt.keys()) != set(feats):
+                        if ent is not None and len(ent[1]) > len(feats):
+                            run.count("reservoir-entries-with-unregistered-entries-judged")
+                        # complete = every key the observed point had (equality with the snapshot taken when it was observed), which
+                        # includes every registered feature
+                        if ent is None or dpt != ent[1] or set(dpt.keys()) != set(ent[1].keys()) or not set(feats) <= set(dpt.keys()):
                             run.violation("reservoir-entry-not-observed", f"{tag}: reservoir of {f!r} holds {dpt!r} which is not a previously "
                                                                           f"observed complete data point", replay)
                             stop = True
@@ -342,17 +390,31 @@ def main(run):
                               f"{tag} (after its update)", replay, imps=imps)
             if i >= 30 and i % (400 if not thorough else 250) == 17 and not stop:
                 xq = dict(next(gen_stream(irnd, 1, period, style)))
+                if schema:
+                    add_unregistered(xq, i, schema, cfg_no, onset, irnd)
                 if irnd.random() < 0.4:      # the explained instance carries whole numeric readings as ints (NumPy ints now and then)
                     xq["n1"] = irnd.choice([int, np.int64])(round(xq["n1"]))
                     xq["n2"] = int(round(xq["n2"]))
                 check_imputer(run, st, xq, model_calls, model, observed_cat, irnd, tag, replay)
             if stop:
                 break
+        if schema:
+            def split_features(node):
+                if hasattr(node, "children"):
+                    yield node.feature
+                    for ch in node.children:
+                        yield from split_features(ch)
+            for f in feats:
+                if any(g not in feats for g in split_features(st(f)[0]._root)):
+                    run.count("trees-that-split-on-an-unregistered-entry")
         run.notes[f"cfg{j} {tag0}"] = {"steps": i + 1, "leaf_loss_events": lost_events, "critical_restructure_events": critical,
                                        "trees": {f: [st(f)[0].n_alternate_trees, st(f)[0].n_pruned_alternate_trees,
                                                      st(f)[0].n_switch_alternate_trees, st(f)[0].n_leaves] for f in feats}}
         if len(run.samples) < 2:
             run.sample({"config": tag0, "seed": seed, "steps": i + 1, "leaf_loss_events": lost_events,
                         "reservoir_keys_per_feature": {f: len(st.data_reservoirs[f]) for f in feats},
-                        "example_leaf_name": sorted(leaf_names(st, "n1")[0])[0][:200]})
-    run.require_count("critical-restructure-events", "updates-where-a-tree-lost-named-leaves", "tree-collapsed-to-one-leaf")
+                        "example_leaf_name": (sorted(leaf_names(st, feats[-1], all_keys)[0]) + [""])[0][:200]})
+    run.require_count("critical-restructure-events", "updates-where-a-tree-lost-named-leaves", "tree-collapsed-to-one-leaf",
+                      "updates-with-unregistered-entries", "updates-with-unregistered-string-entries",
+                      "streams-whose-instances-start-to-carry-further-entries", "reservoir-entries-with-unregistered-entries-judged",
+                      "trees-that-split-on-an-unregistered-entry")
